@@ -118,7 +118,7 @@ def main(argv=None):
     t0 = time.time()
     # wall-clock budget: an analysed change can make the symbolic evaluation explode (or loop); the check then ends as analysis-error
     # instead of hanging.  Generous: quick checks take seconds, thorough ones minutes.
-    budget = int(os.environ.get("FDV_TIME_BUDGET", "900" if tier == "quick" else "7200"))
+    budget = int(os.environ.get("FDV_TIME_BUDGET", "600" if tier == "quick" else "7200"))
 
     def _out_of_time(signum, frame):
         import multiprocessing as _mp
